@@ -247,6 +247,13 @@ type updateStmt struct {
 	returning []selItem
 }
 
+type deleteStmt struct {
+	with      []cteDef
+	table     tableRef
+	where     sqlExpr
+	returning []selItem
+}
+
 type cteDef struct {
 	name string
 	cols []string
@@ -392,6 +399,28 @@ func (p *sqlParser) statement() any {
 	case p.isKw("update"):
 		s := p.update()
 		s.with = with
+		return s
+	case p.isKw("delete"):
+		p.next()
+		p.expectKw("from")
+		s := &deleteStmt{with: with}
+		a := p.ident()
+		if p.acceptOp(".") {
+			s.table.schema = a
+			s.table.name = p.ident()
+		} else {
+			s.table.name = a
+		}
+		if p.acceptKw("as") {
+			s.table.alias = p.ident()
+		}
+		if p.isKw("using") {
+			p.fail("DELETE ... USING")
+		}
+		if p.acceptKw("where") {
+			s.where = p.expr()
+		}
+		s.returning = p.returning()
 		return s
 	}
 	p.fail("statement starting with %q", p.peek().s)
@@ -909,7 +938,13 @@ func (p *sqlParser) primary() sqlExpr {
 		}
 		if !p.isOp(")") {
 			if p.isOp("*") {
-				p.fail("aggregate %s(*)", f.name)
+				if f.name != "count" {
+					p.fail("aggregate %s(*)", f.name)
+				}
+				p.next()
+				p.expectOp(")")
+				f.args = []sqlExpr{&eStar{}}
+				return f
 			}
 			for {
 				f.args = append(f.args, p.expr())
